@@ -284,6 +284,82 @@ def r054(model, rep, ck):
     rep.count('defaulted joint parameters examined', n)
 
 
+VALUE_PRESERVING_METHODS = {'copy', 'reshape', 'flatten', 'ravel', 'squeeze', 'astype', 'view'}
+VALUE_PRESERVING_FUNCS = {'np.copy', 'np.array', 'np.asarray', 'np.squeeze', 'np.ravel', 'np.reshape', 'numpy.copy', 'numpy.array', 'numpy.asarray',
+                          'copy.copy', 'copy.deepcopy', 'fsr.angleMod', 'angleMod', 'fmr.AngleMod', 'mr.AngleMod'}
+
+
+def _strip_value_preserving(e):
+    """-> (innermost expression, [wrappers that are not value preserving])"""
+    bad = []
+    while True:
+        if isinstance(e, ast.Call) and isinstance(e.func, ast.Attribute) and e.func.attr in VALUE_PRESERVING_METHODS:
+            e = e.func.value
+        elif isinstance(e, ast.Call) and src(e.func).replace(' ', '') in VALUE_PRESERVING_FUNCS and e.args:
+            e = e.args[0]
+        elif isinstance(e, ast.Call) and e.args and any(isinstance(x, ast.Attribute) and src(x) == 'self._theta' for a in e.args for x in ast.walk(a)):
+            bad.append(src(e.func))
+            e = next(a for a in e.args if any(isinstance(x, ast.Attribute) and src(x) == 'self._theta' for x in ast.walk(a)))
+        else:
+            return e, bad
+
+
+def r0516(model, rep, ck):
+    """`queries with defaulted joint arguments refer to that state`: wherever a parameter that defaults to None is replaced by something read
+    from the stored joint vector, what replaces it IS that vector (copies, reshapes and angle wrapping aside) - not a clamped, scaled or
+    otherwise transformed version of it.  Resolution through a one-argument helper of the class is followed into the helper."""
+    rep.rule('R05.16', 'a joint argument defaulting to None is replaced by the stored joint vector itself (copy / reshape / angle wrap only), '
+                       'directly or through the resolving helper')
+    arm = ck.arm
+    n = 0
+
+    def none_test(t, p):
+        txt = src(t).replace(' ', '')
+        return txt in ('%sisNone' % p, '%s==None' % p, 'Noneis%s' % p, 'None==%s' % p)
+
+    def none_branch_values(fn_node, p, returns):
+        out = []
+        for st in ast.walk(fn_node):
+            if isinstance(st, ast.If) and none_test(st.test, p):
+                for b in st.body:
+                    if returns and isinstance(b, ast.Return) and b.value is not None:
+                        out.append((b.value, b.lineno))
+                    if not returns and isinstance(b, ast.Assign) and any(isinstance(t, ast.Name) and t.id == p for t in b.targets):
+                        out.append((b.value, b.lineno))
+            if isinstance(st, ast.IfExp) and none_test(st.test, p):
+                out.append((st.body, st.lineno))
+        return out
+
+    for name, fi in sorted(arm.methods.items()):
+        for p, d in fi.defaults.items():
+            if not (isinstance(d, ast.Constant) and d.value is None):
+                continue
+            vals = [(v, ln, fi) for (v, ln) in none_branch_values(fi.node, p, False)]
+            seen_h = set()
+            for c in ast.walk(fi.node):
+                if isinstance(c, ast.Call) and isinstance(c.func, ast.Attribute) and isinstance(c.func.value, ast.Name) and c.func.value.id == 'self' \
+                        and len(c.args) == 1 and not c.keywords and isinstance(c.args[0], ast.Name) and c.args[0].id == p and c.func.attr not in seen_h:
+                    h = arm.methods.get(c.func.attr)
+                    if h is not None and len(h.params) == 2:
+                        seen_h.add(c.func.attr)
+                        vals += [(v, ln, h) for (v, ln) in none_branch_values(h.node, h.params[1], True)]
+            for v, ln, where in vals:
+                if not any(isinstance(x, ast.Attribute) and src(x) == 'self._theta' for x in ast.walk(v)):
+                    continue
+                n += 1
+                inner, bad = _strip_value_preserving(v)
+                if bad:
+                    rep.ob('R05.16', fi, '%s defaults to %s' % (p, src(v)[:70]), False,
+                           'the defaulted `%s` of %s is replaced by %s: the stored joint vector passed through %s, so the query is answered for a '
+                           'configuration that is not the arm\'s state' % (p, fi.name, src(v)[:80], ', '.join(bad)), line=ln)
+                elif src(inner) != 'self._theta':
+                    rep.ob('R05.16', fi, '%s defaults to %s' % (p, src(v)[:70]), False, 'replacement not recognised as the stored joint vector: %s'
+                           % src(inner)[:80], shape=True, line=ln)
+                else:
+                    rep.ob('R05.16', fi, '%s defaults to %s' % (p, src(v)[:70]), True, 'the stored joint vector')
+    rep.floor('R05.16', 'defaulted joint arguments resolved from the stored vector', n, 4)
+
+
 def r055(model, rep, ck):
     rep.rule('R05.5', 'move(): initialize(new base, copy of the ORIGINAL screws, LOCAL home pose, ...), then FK(stored joints) or IK(previous pose)')
     mv = ck.arm.methods.get('move')
@@ -405,6 +481,7 @@ def check(model, rep):
     r052(model, rep, ck)
     r053(model, rep, ck)
     r054(model, rep, ck)
+    r0516(model, rep, ck)
     r055(model, rep, ck)
     r056(model, rep, ck)
     r057(model, rep, ck)
